@@ -187,6 +187,9 @@ def run(tier="quick", seed=0, tag="C16#native"):
     r4 = accessory_database(tier, rnd, tag)
     cases += r4[0]
     failures += r4[1]
+    r5 = struct_valued_characteristics(tier, rnd, tag)
+    cases += r5[0]
+    failures += r5[1]
     return {"cases": cases, "failures": failures, "bound": "sizes 1,254,255,256,510,511; lists of 1..3 messages; id lists of 0..6 ids; databases of 1..3 x 1..3 x 1..3; seeded random values"}
 
 
@@ -283,6 +286,50 @@ def accessory_database(tier, rnd, tag):
                     return cases, failures
                 if back != db:
                     failures.append({"clause": f"{tag}.database-decode", "scenario": {"shape": (na, ns, nc)}})
+                    return cases, failures
+    return cases, failures
+
+
+def struct_valued_characteristics(tier, rnd, tag):
+    """Characteristic.value of every characteristic type declared with a TLV struct (model/characteristics/data.py): the
+    base64 TLV8 value written by a reference encoder is returned as the message (or list of messages) that was encoded"""
+    import base64
+
+    from aiohomekit.model.characteristics.characteristic import Characteristic
+    from aiohomekit.model.characteristics.data import characteristics as table
+
+    class Svc:
+        class accessory:  # noqa: N801
+            @staticmethod
+            def get_next_id():
+                return 7
+
+    cases, failures = 0, []
+    for ctype, extra in table.items():
+        st = extra.get("struct")
+        if not st:
+            continue
+        for size in (1, 255, 256):
+            for _ in range(3 if tier == "thorough" else 1):
+                cases += 1
+                if extra.get("array"):
+                    objs = [gen_obj(st, rnd, size) for _ in range(rnd.choice([1, 2, 3]))]
+                    wire = b"\x00\x00".join(ref_encode(o) for o in objs)
+                    want = objs
+                else:
+                    want = gen_obj(st, rnd, size)
+                    wire = ref_encode(want)
+                if not wire:
+                    continue
+                try:
+                    ch = Characteristic(Svc, ctype)
+                    ch._value = base64.b64encode(wire).decode()
+                    got = ch.value
+                except Exception as e:  # noqa: BLE001
+                    failures.append({"clause": f"{tag}.struct-characteristic-raises", "scenario": {"type": ctype, "struct": st.__name__, "raised": repr(e)}})
+                    return cases, failures
+                if got != want:
+                    failures.append({"clause": f"{tag}.struct-characteristic-value", "scenario": {"type": ctype, "struct": st.__name__, "got": repr(got)[:200], "want": repr(want)[:200]}})
                     return cases, failures
     return cases, failures
 
